@@ -18,7 +18,7 @@ META = {
              "non-trivial = >= 2 QEC cycles (or QUTRIT calibration) and a non-default setting"),
     "assumptions": ["channel match m(a,b) from the statement (same qubit and same channel or one is ALL); zero-length operations only count against barriers"],
     "floors": {
-        "quick": {"circuits_swept": 3000, "composite_description_inputs": 100, "circuits_reread_under_other_settings": 1000, "adjacent_pairs_compared": 100000, "barrier_neighbours_compared": 20000, "readout_lt_microwave": 300, "calibration_circuits": 200, "operations_observed": 200000},
+        "quick": {"circuits_swept": 3000, "composite_description_inputs": 100, "base_circuits_after_composite": 150, "circuits_reread_under_other_settings": 1000, "adjacent_pairs_compared": 100000, "barrier_neighbours_compared": 20000, "readout_lt_microwave": 300, "calibration_circuits": 200, "operations_observed": 200000},
         "thorough": {"circuits_swept": 30000, "circuits_reread_under_other_settings": 10000, "adjacent_pairs_compared": 1000000, "barrier_neighbours_compared": 200000, "readout_lt_microwave": 3000, "calibration_circuits": 2000, "operations_observed": 2000000},
     },
 }
@@ -35,7 +35,22 @@ def gen_input(rng: random.Random) -> Dict[str, Any]:
         inp: Dict[str, Any] = {"constructor": "calibration", "type": rng.choice(["QUBIT", "QUTRIT"]), "qubits": rng.sample(range(0, 12), n)}
     else:
         inp = libgen.gen_repcode_input(rng, max_distance=4, max_cycles=6)
-        if inp["description"] == "connectivity" and rng.random() < 0.5:
+        if rng.random() < 0.12:
+            # directed: the longest sub-chains (several gates per layer) with exactly one gate edge excluded, simplified constructor
+            # (gates and parks of a layer share one explicit relation there)
+            name = rng.choice(libgen.LAYOUTS)
+            segs = [sg for sg in libgen.subchains(name, 4) if len(sg) == 7] or libgen.subchains(name, 4)
+            seg = rng.choice(segs)
+            inp.update({"constructor": "simplified", "description": "connectivity", "layout": name, "involved": seg, "distance": (len(seg) + 1) // 2,
+                        "data_state": [rng.randint(0, 1) for _ in range((len(seg) + 1) // 2)], "ancilla_state": None, "cycles": rng.randint(1, 3)})
+            inp.pop("state_container", None)
+            comp = libgen.gen_composite(rng, inp)
+            edges = comp.get("exclude_gate_edges") or []
+            lay = libgen.layout(name)
+            all_edges = [[q.id for q in op.identifier.qubit_ids] for k in range(lay.gate_sequence_count) for op in lay.get_gate_sequence_at_index(k).gate_operations
+                         if all(q.id in seg for q in op.identifier.qubit_ids)]
+            inp["composite"] = {"kind": "single_gate_edge", "exclude_gate_edges": [rng.choice(all_edges)] if all_edges else edges}
+        elif inp["description"] == "connectivity" and rng.random() < 0.5:
             inp["composite"] = libgen.gen_composite(rng, inp)
     inp["glob"] = libgen.gen_global_settings(rng, default=rng.random() < 0.15)
     if rng.random() < 0.5:
@@ -148,6 +163,19 @@ def check_input(inp: Dict[str, Any], acc: Acc):
         check_circuit(circuit, acc, case, "as constructed", ctor)
         modified = construct(inp).apply_modifiers()
         check_circuit(modified, acc, case, "unrolled", ctor)
+    # the description a composite is based on, used for a circuit of its own AFTER the composite was evaluated
+    base = inp.pop("_base_description_object", None)
+    if base is not None:
+        from qce_circuit.library.repetition_code.circuit_constructors import construct_repetition_code_circuit, construct_repetition_code_circuit_simplified
+        fn = construct_repetition_code_circuit if ctor == "full" else construct_repetition_code_circuit_simplified
+        with libgen.override(g):
+            for fnx, label in ((fn, ctor), (construct_repetition_code_circuit_simplified, "simplified")):
+                try:
+                    base_circuit = fnx(qec_cycles=max(1, inp["cycles"]), description=base, initial_state=libgen.initial_state_of(inp))
+                except Exception:
+                    continue
+                acc.count("base_circuits_after_composite")
+                check_circuit(base_circuit, acc, case, "base description used after the composite was evaluated", label)
     # the same circuit objects under other settings (durations are read at query time, not at construction time)
     for k, g2 in enumerate(inp.get("glob_again") or []):
         with libgen.override(g2):
